@@ -6,9 +6,11 @@ import (
 	"bytes"
 	"errors"
 	"fmt"
+	"reflect"
 	"sort"
 	"strconv"
 	"strings"
+	"time"
 )
 
 // SELF.go: translator validation of the executor itself. Each harness pushes
@@ -218,7 +220,40 @@ func H_SELF_str(v *V) {
 	v.ObserveInt("lookup", m[s])
 }
 
+// H_SELF_lib: library models added later - symbolic format strings with
+// operands, reflect overflow predicates, time.ParseDuration, os.Environ.
+func H_SELF_lib(v *V) {
+	f := v.String(v.Shape("n"))
+	for i := 0; i < len(f); i++ {
+		// bytes the model handles without a cut
+		v.Assume(f[i] < 0x80 && (f[i] < '0' || f[i] > '9') && f[i] != '#' && f[i] != '+' && f[i] != '-' && f[i] != ' ' && f[i] != '.' && f[i] != '*' && f[i] != '[')
+		if i > 0 && f[i-1] == '%' {
+			v.Assume(f[i] == 's' || f[i] == 'v' || f[i] == 'd' || f[i] == 'q' || f[i] == '%')
+		}
+	}
+	cnt := 0
+	for i := 0; i < len(f); i++ {
+		if f[i] == '%' && i+1 < len(f) {
+			if f[i+1] != '%' {
+				cnt++
+			}
+			i++
+		}
+	}
+	v.Assume(cnt >= 1) // at least one verb, so that the operand is consumed
+	v.ObserveStr("sprintf", fmt.Sprintf("<"+f+">", "op"))
+	x := int64(v.Int(-70000, 70000))
+	var i8 int8
+	var u16 uint16
+	v.ObserveBool("ovf-int8", reflect.ValueOf(&i8).Elem().OverflowInt(x))
+	v.ObserveBool("ovf-uint16", reflect.ValueOf(&u16).Elem().OverflowUint(uint64(x)))
+	d, err := time.ParseDuration(v.String(2))
+	v.ObserveInt("dur", int(d))
+	v.ObserveBool("dur-err", err != nil)
+}
+
 func init() {
+	vHarnesses["H_SELF_lib"] = H_SELF_lib
 	vHarnesses["H_SELF_lang"] = H_SELF_lang
 	vHarnesses["H_SELF_arith"] = H_SELF_arith
 	vHarnesses["H_SELF_str"] = H_SELF_str
